@@ -293,7 +293,13 @@ def build(interp_globals):
                 raise MemSafety("->tp_name on a non-type")
             return base.__name__
         if field == "tp_dict":
-            return base.__dict__
+            import gc as _gc
+            d_ = base.__dict__
+            if not isinstance(d_, dict):               # a mappingproxy: the real dict is what it wraps
+                refs = [r_ for r_ in _gc.get_referents(d_) if isinstance(r_, dict)]
+                if refs:
+                    return refs[0]
+            return d_
         if field == "tp_getattro":
             if not isinstance(base, type):
                 raise MemSafety("->tp_getattro on a non-type")
@@ -583,6 +589,26 @@ def build(interp_globals):
         except Exception as e:
             st.from_exception(e)
             return NULL
+
+    @model
+    def m_PyDict_Next(d, pos_ref, key_ref, value_ref):
+        """iteration by position over a snapshot of insertion order (the C code must not add keys while iterating; values it
+        replaces are seen as replaced); borrowed references: no count changes"""
+        if not isinstance(d, dict):
+            raise MemSafety("PyDict_Next on a non-dict")
+        i = pos_ref.get()
+        if symx.is_proxy(i):
+            raise Unsupported("symbolic position in PyDict_Next")
+        items = list(d.items())
+        if not (0 <= i < len(items)):
+            return 0
+        k_, v_ = items[i]
+        if key_ref is not NULL:
+            key_ref.set(k_)
+        if value_ref is not NULL:
+            value_ref.set(v_)
+        pos_ref.set(i + 1)
+        return 1
 
     @model
     def m_PyDict_SetItem(d, k, v):
